@@ -379,10 +379,18 @@ func (w *World) makeNode(asg *ASG, id string, created time.Time) *v1.Node {
 			CreationTimestamp: metav1.NewTime(created),
 		},
 		Spec: v1.NodeSpec{ProviderID: ProviderID(azOf(id), id)},
-		Status: v1.NodeStatus{Allocatable: v1.ResourceList{
-			v1.ResourceCPU:    *resource.NewMilliQuantity(asg.CPUMilli, resource.DecimalSI),
-			v1.ResourceMemory: *resource.NewQuantity(asg.MemBytes, resource.BinarySI),
-		}},
+		Status: v1.NodeStatus{
+			Allocatable: v1.ResourceList{
+				v1.ResourceCPU:    *resource.NewMilliQuantity(asg.CPUMilli, resource.DecimalSI),
+				v1.ResourceMemory: *resource.NewQuantity(asg.MemBytes, resource.BinarySI),
+			},
+			// raw machine capacity, a little above what is allocatable (system reservations); kept on nodes
+			// that report no allocatable yet
+			Capacity: v1.ResourceList{
+				v1.ResourceCPU:    *resource.NewMilliQuantity(asg.CPUMilli+100, resource.DecimalSI),
+				v1.ResourceMemory: *resource.NewQuantity(asg.MemBytes+256<<20, resource.BinarySI),
+			},
+		},
 	}
 }
 
